@@ -6,6 +6,17 @@ VERIF = os.path.dirname(HERE)
 ALL = ["C%02d" % i for i in range(1, 19)]
 
 CLAIMS = {
+    "C17": dict(
+        text=("Rocq proof over the model of run_action_open/_open_link (messages are an inductive with exactly EDIT, "
+              "SEARCH, PROMPT, ECHO): several targets are offered in line order by one PROMPT, a single target is opened "
+              "directly, option k (and -1) opens the k-th (last) target, and a line consisting of one link-like target or "
+              "one ZID offers exactly that target; the clause about non-primary ZIDs is refuted by a witness (known "
+              "finding). Tied to the code by running the real `zorg action open` on generated lines in .zo and .zoq "
+              "pages of an indexed directory, for every option index, against the model and an independent spec scan."),
+        note=("Partial: target resolution against the index is modelled from the ID/RID/ZID rows the harness wrote "
+              "(SQL lookups are not modelled); subprocess targets and query-line refresh are out of model."),
+        technique="Rocq proof (option/prompt laws, single-target lemmas, refutation witness) + CLI correspondence and spec scan",
+        design="§5 C17"),
     "C15": dict(
         text=("Rocq proof about the text-level model of expand_saved_queries: expansion terminates on every acyclic set "
               "of saved queries (rank argument, fuel = number of queries), a successful expansion implies every referenced "
